@@ -102,15 +102,54 @@ static void giant_buffers() {
     }
     munmap(mem, SZ);
 }
+// The API called the way callers write it: with argument expressions that have side effects (the next buffer of a pool, an index that
+// is incremented). Each argument is evaluated exactly once and only the designated buffer changes - which is what distinguishes a function
+// from a function-like macro that the header might put in front of it.
+static ByteBuffer g_pool[3]; static uint8_t g_poolmem[3][8]; static unsigned g_picks;
+static ByteBuffer *pick() { return &g_pool[g_picks++ % 3]; }
+static void hygiene() {
+    static const char *names[] = {"reset", "repeat", "clear", "rewind", "avail", "rest", "add", "consume", "consume_at_most", "use", "space", "set"};
+    for (int f = 0; f < 12; f++) {
+        std::string rep = vp::fmt("hygiene %d\n", f);
+        vp::CaseScope scope([&] { return rep; });
+        for (int i = 0; i < 3; i++) { for (int k = 0; k < 8; k++) g_poolmem[i][k] = (uint8_t)(0x10 * (i + 1) + k); byte_buffer_set(&g_pool[i], g_poolmem[i], 8, 5, 3); }
+        ByteBuffer before[3]; memcpy(before, g_pool, sizeof before);
+        uint8_t src[2] = {0xaa, 0xbb}, dst[4] = {0, 0, 0, 0}; uint8_t other[4];
+        g_picks = 0; size_t idx = 0; uint8_t *srcs[2] = {src, src}; (void)srcs;
+        switch (f) {
+        case 0: byte_buffer_reset(pick()); break;
+        case 1: byte_buffer_repeat(pick()); break;
+        case 2: byte_buffer_clear(pick()); break;
+        case 3: (void)byte_buffer_rewind(pick()); break;
+        case 4: (void)byte_buffer_avail(pick()); break;
+        case 5: (void)byte_buffer_rest(pick()); break;
+        case 6: (void)byte_buffer_add(pick(), src + idx++, 1); break;
+        case 7: (void)byte_buffer_consume(pick(), dst + idx++, 1); break;
+        case 8: (void)byte_buffer_consume_at_most(pick(), dst + idx++, 1); break;
+        case 9: (void)byte_buffer_use(pick(), other + idx++, 3); break;
+        case 10: (void)byte_buffer_space(pick(), other + idx++, 3); break;
+        default: (void)byte_buffer_set(pick(), other + idx++, 3, 2, 1); break;
+        }
+        vp::count(); vp::cls("call-with-side-effecting-arguments");
+        bool others_same = memcmp(&g_pool[1], &before[1], sizeof(ByteBuffer)) == 0 && memcmp(&g_pool[2], &before[2], sizeof(ByteBuffer)) == 0;
+        bool inv = g_pool[0].offset <= g_pool[0].used && g_pool[0].used <= g_pool[0].size;
+        bool idx_ok = f < 6 ? idx == 0 : idx == 1;
+        if (g_picks != 1 || !idx_ok || !others_same || !inv)
+            vp::fail(std::string("hygiene:") + names[f], vp::fmt("byte_buffer_%s(next_buffer(), ...): the buffer argument was evaluated %u time(s), the index argument %zu time(s); other buffers %s; invariant of the designated buffer %s",
+                                                                 names[f], g_picks, idx, others_same ? "unchanged" : "CHANGED", inv ? "holds" : "BROKEN"), rep);
+        else if (f == 0 && (g_pool[0].used != 0 || g_pool[0].offset != 0)) vp::fail("hygiene:reset", "reset did not empty the designated buffer", rep);
+        else if (f == 1 && (g_pool[0].used != 5 || g_pool[0].offset != 0)) vp::fail("hygiene:repeat", "repeat did not make the filled octets unread again", rep);
+    }
+}
 static void run() {
     auto &a = vp::args();
     size_t maxsize = a.thorough() ? 5 : 4;
     g_maxdepth = a.thorough() ? 5 : 4;
     vp::stats().rule = vp::fmt("enum: every op sequence of length <= %zu over add/consume/consume_at_most (operand 0..size+1; consume/at-most also with lengths at the top of size_t), rewind, reset, clear, repeat, query, refused set-up calls on the buffer in use (5 kinds of invalid arguments), adds whose source lies in the buffer's own memory "
-                               "from every valid (size<=%zu, used, offset) initial state; every set/use/space argument combination; buffers with 2^32-1 .. 2^32+3 unread octets (address space only)",
+                               "from every valid (size<=%zu, used, offset) initial state; every set/use/space argument combination; every API function called with side-effecting argument expressions (evaluated exactly once); buffers with 2^32-1 .. 2^32+3 unread octets (address space only)",
                                g_maxdepth, maxsize);
     vp::stats().exhaustive = true;
-    if (a.shard == 0) setup_calls();
+    if (a.shard == 0) { setup_calls(); hygiene(); }
     if (a.shard == 1 % a.nshards && !vp::vg().on) giant_buffers();
     // initial states are dealt round-robin to the shards
     unsigned idx = 0;
@@ -134,6 +173,7 @@ static bool replay(const std::string &text) {
         setup_calls();   // tiny: just redo the whole family
         return vp::stats().failures.empty();
     }
+    if (!ls.empty() && ls[0].rfind("hygiene", 0) == 0) { hygiene(); return vp::stats().failures.empty(); }
     if (!ls.empty() && ls[0].rfind("giant", 0) == 0) { giant_buffers(); return vp::stats().failures.empty(); }
     Case c;
     if (!parse(text, c)) { fprintf(stderr, "unparsable replay\n"); return false; }
